@@ -326,7 +326,8 @@ _classes = {}
 
 def _module_class(key, specs):
     """real Module subclass with one parameter per spec (name, datatype name, start, update_unchanged, kind, export)
-    kind: rw (read_* and write_*), noread (write_* only), const (constant, no driver methods)"""
+    kind: rw (read_* and write_*), hrw (read_* generated by a CommonReadHandler, write_*), noread (write_* only),
+    const (constant, no driver methods)"""
     if key in _classes:
         return _classes[key]
     from frappy.modules import Module, Parameter
@@ -337,6 +338,15 @@ def _module_class(key, specs):
             return self.drv('r', p, None)
         read.__name__ = 'read_' + p
         return read
+
+    def mk_hread(p):
+        """read method generated by CommonReadHandler: the function assigns what the hardware delivered"""
+        from frappy.rwhandler import CommonReadHandler
+
+        def read_all(self):
+            setattr(self, p, self.drv('r', p, None))
+        read_all.__qualname__ = f'hread_{p}_{len(_classes)}_{key[:40]!r}'
+        return CommonReadHandler([p])(read_all)
 
     def mk_write(p):
         def write(self, value):
@@ -373,6 +383,8 @@ def _module_class(key, specs):
         attrs[p] = Parameter(p, fac(), readonly=False, **kw)
         if kind == 'rw':
             attrs['read_' + p] = mk_read(p)
+        if kind == 'hrw':
+            attrs['hread_' + p] = mk_hread(p)
         if kind != 'const':
             attrs['write_' + p] = mk_write(p)
     cls = type('M_' + str(len(_classes)), (Module,), attrs)
@@ -575,7 +587,7 @@ class World:
                 return NESTED_ID.get(e, e) if nested_expected(self, p) else e
         mt = _NESTED.match(text)
         if mt and mt.group(1) in self.mods and mt.group(2) in self.params and mt.group(2) != p:
-            e = self.errkey.get((name, mt.group(3)))
+            e = self.errkey.get((name, mt.group(3))) or self.inverr.get((mt.group(2), (name, mt.group(3))))
             if e in NESTED_ID:
                 return NESTED_ID[e]
         return f'other:{name}:{text}'[:80]
@@ -622,6 +634,9 @@ class World:
         k = (getattr(err, 'name', '?'), str(err.args[0]) if err.args else '')
         if (p, k) in self.inverr:
             return self.inverr[(p, k)]
+        for q in self.params:               # (a nested read hands the validation error of the inner parameter on)
+            if (q, k) in self.inverr:
+                return NESTED_ID[self.inverr[(q, k)]]
         if type(err).__name__ == 'ConfigError' and 'not initialized' in str(err.args[:1]):
             return 'init'
         return f'other:{type(err).__name__}:{err.args}'[:80]
@@ -742,6 +757,18 @@ class World:
             else:
                 disp.remove_connection(self.conns[p])
                 disp.add_connection(self.conns[p])      # (the same fake connection object comes back later)
+        elif a == 'WriteNested':      # write_<y> reads <p> back, which fails
+            if x in self.errs:
+                self.script[(me, 'r', p)] = ('raise', self.new_error(p, x, ch, pick))
+            else:
+                self.script[(me, 'r', p)] = ('ret', self.cat[self.dts[p]][3][x])
+            ch['errkind'] = 'secop' if x != 'e3' else 'other'
+            self.script[(me, 'w', y)] = ('nested', (p, None))
+            expect_exc = True
+            try:
+                getattr(self.mobj[y], 'write_' + y)(self.raw(y, self.avail[y][0], rnd, 'w')[0])
+            except Exception as e:
+                exc = e
         elif a in ('ReadOk', 'ReadRaise', 'ReadInvalid', 'ReadNested'):
             via = pick('via', ['direct', 'poll', 'request'], [6, 2, 2] if a == 'ReadOk' else [16, 4, 4])
             target = y if a == 'ReadNested' else p
@@ -757,8 +784,11 @@ class World:
                 self.script[(me, 'r', p)] = ('raise', self.new_error(p, x, ch, pick))
                 expect_exc = True
             else:       # read_<y> reads <p> first
-                if x in self.errs:
-                    self.script[(me, 'r', p)] = ('raise', self.new_error(p, x, ch, pick))
+                if x in self.errs or x in self.cat[self.dts[p]][3]:
+                    if x in self.errs:
+                        self.script[(me, 'r', p)] = ('raise', self.new_error(p, x, ch, pick))
+                    else:       # the inner read delivers a value its datatype refuses
+                        self.script[(me, 'r', p)] = ('ret', self.cat[self.dts[p]][3][x])
                     self.script[(me, 'r', y)] = ('nested', (p, None))
                     self.nested_outer.add(y)
                     expect_exc = True
@@ -841,6 +871,7 @@ class World:
         elif a == 'Untouched':
             from frappy.modulebase import Done
             options = {'rw': ['ReadDone', 'WriteDone', 'WriteRaise', 'WriteInvalid', 'ChangeRaise', 'InitWriteRaise'],
+                       'hrw': ['WriteDone', 'WriteRaise', 'WriteInvalid', 'ChangeRaise', 'InitWriteRaise'],
                        'noread': ['ReadCached', 'WriteRaise', 'WriteInvalid', 'InitWriteRaise'],
                        'const': ['ReadConst', 'ReadCached', 'ChangeConst']}[self.kind[p]]
             if p in self.hidden:
@@ -881,6 +912,8 @@ class World:
                 exc = e
         else:
             raise MachineryError(f'unknown operation {op}')
+        if a in ('ReadInvalid', 'ReadNested', 'WriteNested') and self.kind.get(p) == 'hrw':
+            ch['inner'] = 'CommonReadHandler'
         if (exc is not None) != expect_exc and a != 'AssignInvalid':
             ch['raised'] = repr(exc)[:80] if exc is not None else 'no exception'
         return ch
@@ -891,7 +924,7 @@ def nested_expected(w, p):
 
 
 _NESTED = __import__('re').compile(r'^in (\w+)\.read_(\w+): (.*)$', __import__('re').S)
-NESTED_ID = {'e1': 'n1', 'e2': 'n2', 'e4': 'n4'}
+NESTED_ID = {'e1': 'n1', 'e2': 'n2', 'e4': 'n4', 'i1': 'ni1', 'i2': 'ni2'}
 
 
 # ------------------------------------------------------------------ spec -> code replay
@@ -920,12 +953,34 @@ def _shape_for(idx, k, params, seed):
             'cbs': {p: 'raise' for p in params if rnd.random() < 0.3}}
 
 
+def _with_handlers(beh, shape, seedstr):
+    """a parameter whose reads in this behaviour all deliver refused values (ReadInvalid, inner parameter of a nested
+    read / write with a refused value) gets its read method from a CommonReadHandler in 2 of 3 worlds
+    (a successful read through such a handler announces twice, which the specification does not model)"""
+    rnd = random.Random('h:' + seedstr)
+    kind = dict(shape.get('kind', {}))
+    for p in sorted(beh[0]['omit']):
+        ok = used = False
+        for st in beh[1:]:
+            op = st['op']
+            a, inner, x = op['a'], op['p'], op['x']
+            if a == 'ReadInvalid' and inner == p or a in ('ReadNested', 'WriteNested') and inner == p and x in TR_INVS:
+                used = True         # a read of p that delivers a refused value
+            elif a in ('ReadOk', 'ReadRaise') and inner == p or a in ('ReadNested', 'WriteNested') and inner == p \
+                    or a == 'ReadNested' and op['y'] == p:
+                ok = True           # any other read of p
+        if used and not ok and kind.get(p, 'rw') == 'rw' and rnd.random() < 0.67:
+            kind[p] = 'hrw'
+    return dict(shape, kind=kind)
+
+
 NOLOCK_OPS = ('Tick', 'Activate', 'Deactivate', 'Drop', 'Untouched')     # need not pass through updateLock
 
 
 def _replay_one(beh, shape, seedstr, forced=None, verbose=False):
     """replay one behaviour on one shape; returns None or the first mismatch"""
     init = beh[0]
+    shape = _with_handlers(beh, shape, seedstr)
     try:
         w = World(init, shape)
     except WindowMismatch as e:
@@ -1002,7 +1057,7 @@ def _replay_job(job):
 def _signature(bad):
     ch = bad['choices']
     sig = {'module': 'ParamCache', 'action': bad['op']['a'], 'diff': '+'.join(bad['diff'])}
-    for k in ('via', 'ret', 'rep', 'errobj', 'var', 'how', 'errkind', 'after'):
+    for k in ('via', 'ret', 'rep', 'errobj', 'var', 'how', 'errkind', 'after', 'inner'):
         if k in ch:
             sig[k] = ch[k]
     return sig
@@ -1020,7 +1075,7 @@ TR_CONNS = ['c1', 'c2', 'c3']
 def _random_init(rnd, threads=False):
     """4 parameters (p1-p3 in module m, p4 in module n), 3 connections + the callback receiver"""
     omit = {p: rnd.choice([0, 0, 1, 2, 3, 5, NEVER]) for p in TR_PARAMS}
-    kind = {p: rnd.choice(['rw', 'rw', 'rw', 'rw', 'noread', 'const']) for p in TR_PARAMS}
+    kind = {p: rnd.choice(['rw', 'rw', 'rw', 'hrw', 'noread', 'const']) for p in TR_PARAMS}
     kind['p1'] = kind['p2'] = 'rw'
     hidden = [p for p in ('p3', 'p4') if rnd.random() < 0.2]
     nodefault = sorted(p for p in TR_PARAMS if rnd.random() < 0.5 and kind[p] != 'const')
@@ -1074,6 +1129,13 @@ def _random_op(rnd, sticky, w, now, threads=False):
         return mk('AssignInvalid', rnd.choice(TR_INVS))
     if kind == 'noread':
         return mk('Untouched', '-')
+    qs = [q for q in TR_PARAMS if q != p and w.mname[q] == w.mname[p] and w.kind[q] == 'rw' and w.dts[q] != w.dts[p]]
+    if kind == 'hrw' or (r < 0.67 and not threads and qs):
+        # reads that deliver a refused value: directly, or as the inner read of another parameter's read / write
+        inv = rnd.choice(TR_INVS)
+        if threads or not qs or rnd.random() < 0.5:
+            return mk('ReadInvalid', inv)
+        return mk(rnd.choice(['ReadNested', 'WriteNested']), inv, rnd.choice(qs))
     if r < 0.70 and not threads:
         # a nested read: q's driver reads p first (same module, both with a driver method)
         qs = [q for q in TR_PARAMS if q != p and w.mname[q] == w.mname[p] and w.kind[q] == 'rw']
@@ -1112,8 +1174,6 @@ def _random_trace(job):
         tr.append(ev)
         if 'raised' in ch:
             ev['lk'] = False
-        if op['a'] == 'ReadNested' and ch.get('errkind') == 'secop':
-            break      # (recorded defect: the inner parameter's error report changes afterwards; the trace ends here)
     return {'trace': tr, 'shape': shape, 'job': list(job)}
 
 
@@ -1253,7 +1313,7 @@ def _trace_sig(ev, clause, mode):
     if ev is None:
         return {'module': 'ParamCache', 'mode': mode, 'diff': clause}
     sig = {'module': 'ParamCache', 'mode': mode, 'action': ev['op']['a'], 'diff': clause}
-    for k in ('via', 'ret', 'rep', 'errobj', 'var', 'how', 'errkind'):
+    for k in ('via', 'ret', 'rep', 'errobj', 'var', 'how', 'errkind', 'inner'):
         if k in ev.get('ch', {}):
             sig[k] = ev['ch'][k]
     return sig
@@ -1285,8 +1345,10 @@ def _run_agent(chk):
         sany(m)
     ncpu = int(__import__('os').environ.get('VERIF_TLC_WORKERS', 0) or 0) or max(2, (__import__('os').cpu_count() or 4) // 3)
     # (scopes: node-, module- and parameter-wise activation / deactivation over two modules m, m2)
-    gens = [f'Gen_ParamCache_{tier}.cfg', f'Gen_ParamCache_scopes_{tier}.cfg', f'Gen_ParamCache_cover_{tier}.cfg'] if quick else \
-           ['Gen_ParamCache_scopes_thorough.cfg'] + [f'Gen_ParamCache_thorough_{k}.cfg' for k in ('a', 'b')] + \
+    # (handler: reads delivering refused values - also through CommonReadHandler - repeated, then nested in a read / write)
+    gens = [f'Gen_ParamCache_{tier}.cfg', f'Gen_ParamCache_scopes_{tier}.cfg', f'Gen_ParamCache_handler_{tier}.cfg',
+            f'Gen_ParamCache_cover_{tier}.cfg'] if quick else \
+           ['Gen_ParamCache_scopes_thorough.cfg', 'Gen_ParamCache_handler_thorough.cfg'] + [f'Gen_ParamCache_thorough_{k}.cfg' for k in ('a', 'b')] + \
            ['Gen_ParamCache_cover_thorough.cfg']
     # all TLC jobs are subprocesses: start them side by side (threads only wait for them)
     with ThreadPoolExecutor(max_workers=4) as ex:
